@@ -117,7 +117,8 @@ theorem label_step (c : Cfg) (hn : NoRep c) (s s' : State) (hr : Reach c s) (a :
       (s'.nd i).preSkip = true) := by
   have hae := aePc_norep c hn
   have hK := inv_node c hn _ hr i
-  simp only [NodeOK] at hK
+  have hE := inv_ran c hn _ hr i
+  simp only [NodeOK, NodeRan] at hK hE
   explode_step a hs <;> grind
 
 theorem isReady_none_of_licensed (c : Cfg) (s : State) (i : Nat)
